@@ -3,9 +3,354 @@ import ScryerModel.Model.Cwil
 namespace Scryer.Cwil
 open Scryer Scryer.Solve
 
+variable (bind : String → St → Option St) (s0 : St)
+
 @[simp] theorem ticks_nil : ticks [] = 0 := rfl
 @[simp] theorem ticks_tick (es : List Ev) : ticks (.tick :: es) = ticks es + 1 := rfl
 @[simp] theorem ticks_probe (es : List Ev) : ticks (.probe :: es) = ticks es := rfl
 @[simp] theorem ticks_ans (s : St) (es : List Ev) : ticks (.ans s :: es) = ticks es := rfl
+
+theorem ticks_append (a b : List Ev) : ticks (a ++ b) = ticks a + ticks b := by
+  induction a with
+  | nil => simp
+  | cons e a ih => cases e <;> simp [ih] <;> omega
+
+@[simp] theorem cons_evs (e : Ev) (r : Res) : (r.cons e).evs = e :: r.evs := rfl
+@[simp] theorem cons_fin (e : Ev) (r : Res) : (r.cons e).fin = r.fin := rfl
+
+theorem ticks_exceeded : ticks (exceededRes bind s0).evs = 0 := by
+  unfold exceededRes; split <;> simp
+
+theorem exceeded_fin : (exceededRes bind s0).fin = .done := by
+  unfold exceededRes; split <;> rfl
+
+theorem ticks_emitAns (a : String) (s : St) (r : Res) : ticks (emitAns bind a s r).evs = ticks r.evs := by
+  unfold emitAns; split <;> simp
+
+theorem ticks_ansStep_le (s : St) (es : List Ev) (fin : Fin) (r : Res) :
+    ticks (ansStep bind s es fin r).evs ≤ ticks r.evs := by
+  unfold ansStep; split
+  · simp
+  · rw [ticks_emitAns]; exact Nat.le_refl _
+
+/-! ### fires / passed -/
+
+theorem fires_mono : ∀ (es : List Ev) (b b' : Nat), b ≤ b' → fires b' es = true → fires b es = true := by
+  intro es
+  induction es with
+  | nil => intro b b' _ h; simp [fires] at h
+  | cons e es ih =>
+    intro b b' hb h
+    cases e with
+    | tick =>
+      cases b with
+      | zero => simp [fires]
+      | succ b =>
+        cases b' with
+        | zero => omega
+        | succ b' => simp only [fires] at h ⊢; exact ih b b' (by omega) h
+    | probe =>
+      cases b with
+      | zero => simp [fires]
+      | succ b =>
+        cases b' with
+        | zero => omega
+        | succ b' => simp only [fires] at h ⊢; exact ih (b+1) (b'+1) (by omega) h
+    | ans s => simp only [fires] at h ⊢; exact ih b b' hb h
+
+/-- when the limit fires the whole budget has been used. -/
+theorem ticks_passed_of_fires : ∀ (es : List Ev) (b : Nat), fires b es = true → ticks (passed b es) = b := by
+  intro es
+  induction es with
+  | nil => intro b h; simp [fires] at h
+  | cons e es ih =>
+    intro b h
+    cases e with
+    | tick =>
+      cases b with
+      | zero => simp [passed]
+      | succ b => simp only [fires] at h; simp [passed, ih b h]
+    | probe =>
+      cases b with
+      | zero => simp [passed]
+      | succ b => simp only [fires] at h; simp [passed, ih (b+1) h]
+    | ans s => simp only [fires] at h; simp [passed, ih b h]
+
+theorem passed_of_not_fires : ∀ (es : List Ev) (b : Nat), fires b es = false → passed b es = es := by
+  intro es
+  induction es with
+  | nil => intro b _; rfl
+  | cons e es ih =>
+    intro b h
+    cases e with
+    | tick =>
+      cases b with
+      | zero => simp [fires] at h
+      | succ b => simp only [fires] at h; simp [passed, ih b h]
+    | probe =>
+      cases b with
+      | zero => simp [fires] at h
+      | succ b => simp only [fires] at h; simp [passed, ih (b+1) h]
+    | ans s => simp only [fires] at h; simp [passed, ih b h]
+
+/-- without inner limits the limit fires exactly when the goal needs more inferences than `b`. -/
+theorem fires_iff_ticks : ∀ (es : List Ev) (b : Nat), hasProbe es = false → (fires b es = true ↔ b < ticks es) := by
+  intro es
+  induction es with
+  | nil => intro b _; simp [fires]
+  | cons e es ih =>
+    intro b hp
+    cases e with
+    | tick =>
+      simp only [hasProbe] at hp
+      cases b with
+      | zero => simp [fires]
+      | succ b => simp only [fires, ticks_tick]; rw [ih b hp]; omega
+    | probe => simp [hasProbe] at hp
+    | ans s => simp only [hasProbe] at hp; simp only [fires, ticks_ans]; exact ih b hp
+
+theorem fires_of_lt : ∀ (es : List Ev) (b : Nat), ticks es < b → fires b es = false := by
+  intro es
+  induction es with
+  | nil => intro b _; rfl
+  | cons e es ih =>
+    intro b h
+    cases e with
+    | tick =>
+      cases b with
+      | zero => omega
+      | succ b => simp only [fires]; exact ih b (by simp at h; omega)
+    | probe =>
+      cases b with
+      | zero => omega
+      | succ b => simp only [fires]; exact ih (b+1) (by simpa using h)
+    | ans s => simp only [fires]; exact ih b (by simpa using h)
+
+/-! ### the two shapes of a limited trace -/
+
+/-- the limit does not fire: the limited trace is the trace of `call(G)` with `R` added. -/
+theorem limitGo_of_not_fires : ∀ (es : List Ev) (b : Nat) (fin : Fin), fires b es = false →
+    limitGo bind s0 b es fin = passGo bind es fin := by
+  intro es
+  induction es with
+  | nil => intro b fin _; simp [limitGo, passGo]
+  | cons e es ih =>
+    intro b fin h
+    cases e with
+    | tick =>
+      cases b with
+      | zero => simp [fires] at h
+      | succ b => simp only [fires] at h; simp [limitGo, passGo, ih b fin h]
+    | probe =>
+      cases b with
+      | zero => simp [fires] at h
+      | succ b => simp only [fires] at h; simp [limitGo, passGo, ih (b+1) fin h]
+    | ans s => simp only [fires] at h; simp [limitGo, passGo, ih b fin h]
+
+theorem annotTrue_append (a b : List Ev) : annotTrue bind (a ++ b) = annotTrue bind a ++ annotTrue bind b := by
+  induction a with
+  | nil => rfl
+  | cons e a ih =>
+    cases e with
+    | tick => simp [annotTrue, ih]
+    | probe => simp [annotTrue, ih]
+    | ans s => simp only [List.cons_append, annotTrue]; split <;> simp [ih]
+
+theorem fires_ne_nil {b : Nat} {es : List Ev} (h : fires b es = true) : es ≠ [] := by
+  intro e; subst e; simp [fires] at h
+
+/-- the limit fires: what was delivered before is the consumed part of the goal's trace with
+`R = true` on every solution (a choice point is certainly left: the search goes on), followed by
+the `inference_limit_exceeded` solution; nothing is left to retry. -/
+theorem limitGo_of_fires : ∀ (es : List Ev) (b : Nat) (fin : Fin), fires b es = true →
+    limitGo bind s0 b es fin =
+      ⟨annotTrue bind (passed b es) ++ (exceededRes bind s0).evs, .done⟩ := by
+  intro es
+  induction es with
+  | nil => intro b fin h; simp [fires] at h
+  | cons e es ih =>
+    intro b fin h
+    cases e with
+    | tick =>
+      cases b with
+      | zero => simp [limitGo, passed, annotTrue]; rw [← exceeded_fin bind s0]
+      | succ b =>
+        simp only [fires] at h
+        simp [limitGo, passed, annotTrue, ih b fin h, Res.cons]
+    | probe =>
+      cases b with
+      | zero => simp [limitGo, passed, annotTrue]; rw [← exceeded_fin bind s0]
+      | succ b =>
+        simp only [fires] at h
+        simp [limitGo, passed, annotTrue, ih (b+1) fin h, Res.cons]
+    | ans s =>
+      simp only [fires] at h
+      have hne := fires_ne_nil h
+      simp only [limitGo, passed, annotTrue, ih b fin h]
+      unfold ansStep
+      split
+      · exact absurd rfl hne
+      · have hr : rAtom es fin = "true" := by
+          unfold rAtom
+          split
+          · exact absurd rfl hne
+          · rfl
+        rw [hr]
+        unfold emitAns
+        split <;> simp_all [Res.cons]
+
+/-! ### passGo -/
+
+theorem ticks_passGo_le : ∀ (es : List Ev) (fin : Fin), ticks (passGo bind es fin).evs ≤ ticks es := by
+  intro es
+  induction es with
+  | nil => intro fin; simp [passGo]
+  | cons e es ih =>
+    intro fin
+    cases e with
+    | tick => simp [passGo]; exact ih fin
+    | probe => simp [passGo]; exact ih fin
+    | ans s => simp only [passGo, ticks_ans]; exact Nat.le_trans (ticks_ansStep_le ..) (ih fin)
+
+/-- an undecided last solution is the only way a tick count can change. -/
+theorem ticks_passGo : ∀ (es : List Ev) (fin : Fin), ticks (passGo bind es fin).evs = ticks es := by
+  intro es
+  induction es with
+  | nil => intro fin; simp [passGo]
+  | cons e es ih =>
+    intro fin
+    cases e with
+    | tick => simp [passGo, ih fin]
+    | probe => simp [passGo, ih fin]
+    | ans s =>
+      simp only [passGo, ticks_ans]
+      unfold ansStep
+      split
+      · simp
+      · rw [ticks_emitAns]; exact ih fin
+
+theorem ticks_annotTrue (es : List Ev) : ticks (annotTrue bind es) = ticks es := by
+  induction es with
+  | nil => rfl
+  | cons e es ih =>
+    cases e with
+    | tick => simp [annotTrue, ih]
+    | probe => simp [annotTrue, ih]
+    | ans s => simp only [annotTrue, ticks_ans]; split <;> simp [ih]
+
+/-- `passed` is monotone in the budget (as a prefix). -/
+theorem passed_prefix : ∀ (es : List Ev) (b b' : Nat), b ≤ b' → ∃ t, passed b' es = passed b es ++ t := by
+  intro es
+  induction es with
+  | nil => intro b b' _; exact ⟨[], rfl⟩
+  | cons e es ih =>
+    intro b b' hb
+    cases e with
+    | tick =>
+      cases b with
+      | zero => exact ⟨passed b' (.tick :: es), by simp [passed]⟩
+      | succ b =>
+        cases b' with
+        | zero => omega
+        | succ b' =>
+          obtain ⟨t, ht⟩ := ih b b' (by omega)
+          exact ⟨t, by simp [passed, ht]⟩
+    | probe =>
+      cases b with
+      | zero => exact ⟨passed b' (.probe :: es), by simp [passed]⟩
+      | succ b =>
+        cases b' with
+        | zero => omega
+        | succ b' =>
+          obtain ⟨t, ht⟩ := ih (b+1) (b'+1) (by omega)
+          exact ⟨t, by simp [passed, ht]⟩
+    | ans s =>
+      obtain ⟨t, ht⟩ := ih b b' hb
+      exact ⟨t, by simp [passed, ht]⟩
+
+/-- in the unlimited trace the part before a firing point is annotated with `true` as well. -/
+theorem passGo_prefix_of_fires : ∀ (es : List Ev) (b : Nat) (fin : Fin), fires b es = true →
+    ∃ t, (passGo bind es fin).evs = annotTrue bind (passed b es) ++ t := by
+  intro es
+  induction es with
+  | nil => intro b fin h; simp [fires] at h
+  | cons e es ih =>
+    intro b fin h
+    cases e with
+    | tick =>
+      cases b with
+      | zero => exact ⟨(passGo bind (.tick :: es) fin).evs, by simp [passed, annotTrue]⟩
+      | succ b =>
+        simp only [fires] at h
+        obtain ⟨t, ht⟩ := ih b fin h
+        exact ⟨t, by simp [passGo, passed, annotTrue, ht]⟩
+    | probe =>
+      cases b with
+      | zero => exact ⟨(passGo bind (.probe :: es) fin).evs, by simp [passed, annotTrue]⟩
+      | succ b =>
+        simp only [fires] at h
+        obtain ⟨t, ht⟩ := ih (b+1) fin h
+        exact ⟨t, by simp [passGo, passed, annotTrue, ht]⟩
+    | ans s =>
+      simp only [fires] at h
+      have hne := fires_ne_nil h
+      obtain ⟨t, ht⟩ := ih b fin h
+      refine ⟨t, ?_⟩
+      simp only [passGo, passed, annotTrue]
+      unfold ansStep
+      split
+      · exact absurd rfl hne
+      · have hr : rAtom es fin = "true" := by
+          unfold rAtom
+          split
+          · exact absurd rfl hne
+          · rfl
+        rw [hr]
+        unfold emitAns
+        split <;> simp_all [Res.cons]
+
+end Scryer.Cwil
+
+namespace Scryer.Cwil
+open Scryer Scryer.Solve
+variable (bind : String → St → Option St) (s0 : St)
+
+theorem fires_exceeded (bo : Nat) : fires bo (exceededRes bind s0).evs = (bo == 0) := by
+  unfold exceededRes
+  split <;> cases bo <;> simp [fires]
+
+theorem fires_emitAns (bo : Nat) (a : String) (s : St) (r : Res) :
+    fires bo (emitAns bind a s r).evs = fires bo r.evs := by
+  unfold emitAns; split <;> simp [fires]
+
+/-- two nested limits on a goal without further inner limits: the outer one fires iff it is at
+least as tight as the inner one (a tie goes to the outer limit) and the goal needs more. -/
+theorem fires_nested : ∀ (es : List Ev) (bo bi : Nat) (fin : Fin), hasProbe es = false →
+    fires bo (limitGo bind s0 bi es fin).evs = (decide (bo ≤ bi) && fires bo es) := by
+  intro es
+  induction es with
+  | nil => intro bo bi fin _; simp [limitGo, fires]
+  | cons e es ih =>
+    intro bo bi fin hp
+    cases e with
+    | probe => simp [hasProbe] at hp
+    | tick =>
+      simp only [hasProbe] at hp
+      cases bi with
+      | zero =>
+        simp only [limitGo, fires_exceeded]
+        cases bo <;> simp [fires]
+      | succ bi =>
+        simp only [limitGo, cons_evs]
+        cases bo with
+        | zero => simp [fires]
+        | succ bo => simp only [fires]; rw [ih bo bi fin hp]; simp
+    | ans s =>
+      simp only [hasProbe] at hp
+      simp only [limitGo, fires]
+      unfold ansStep
+      split
+      · simp [fires]
+      · rw [fires_emitAns]; exact ih bo bi fin hp
 
 end Scryer.Cwil
